@@ -11,6 +11,8 @@ postconditions of contracts/c11.py (helper predicates of c11.py are used by name
 """
 from pyvc.spec import *
 
+GROUP = 'process'   # contracts of one group use each other's contracts at call sites (pyvc/hooks.py contract_for_call)
+
 
 def same_reports(p, q):
     """same last report from every instance (what 'all pending messages have been delivered' gives two instances)"""
